@@ -41,6 +41,7 @@ type harnessGroup struct {
 	Bounds    string   `json:"bounds"`
 	Out       string   `json:"outside"`
 	NonTerm   bool     `json:"nontermination_is_violation"`
+	RaceBuild bool     `json:"race_build"` // native replays run under the Go race detector
 }
 
 type propIndex struct {
@@ -300,7 +301,7 @@ func cmdCheck(args []string) int {
 					defer wg2.Done()
 					sem2 <- struct{}{}
 					defer func() { <-sem2 }()
-					j.out, j.gotObs = nativeReplay(*repo, ovFiles[j.run.group.Pkg], j.run.group.Pkg, j.run.harness, j.run.params, j.file)
+					j.out, j.gotObs = nativeReplay(*repo, ovFiles[j.run.group.Pkg], j.run.group.Pkg, j.run.harness, j.run.params, j.file, j.run.group.RaceBuild && (j.sample || j.v.Kind == "race"), j.sample)
 					if !j.sample {
 						j.repro = reproduces(j.out, j.v)
 					}
@@ -450,6 +451,28 @@ func writeReplayOverlay(repo, root, outDir, pkg string) (string, error) {
 			add(t, []byte(strings.Replace(string(testTmpl), "package PKG", "package "+pkg, 1)))
 		}
 	}
+	// Schedule-controlled replay: in the replay build (only) the package's own
+	// sync.Mutex fields become verifMutex, which enforces the lock acquisition order
+	// recorded in a counterexample (and is a plain mutex otherwise). The rewritten
+	// copies are regenerated from the current source on every run.
+	if ents, err := os.ReadDir(pkgDir); err == nil && len(ov) > 0 {
+		for _, e := range ents {
+			name := e.Name()
+			if e.IsDir() || !strings.HasSuffix(name, ".go") || strings.HasSuffix(name, "_test.go") {
+				continue
+			}
+			target := filepath.Join(pkgDir, name)
+			if _, dup := ov[target]; dup {
+				continue
+			}
+			src, err := os.ReadFile(target)
+			if err != nil || !strings.Contains(string(src), "sync.Mutex") {
+				continue
+			}
+			out := strings.ReplaceAll(string(src), "sync.Mutex", "verifMutex") + "\nvar _ sync.Once // keeps the import used in the replay build\n"
+			add(target, []byte(out))
+		}
+	}
 	b, _ := json.Marshal(map[string]interface{}{"Replace": repl})
 	f := filepath.Join(outDir, "overlay-"+sanitize(pkg)+".json")
 	return f, os.WriteFile(f, b, 0o644)
@@ -463,36 +486,70 @@ var (
 
 // testBinary compiles (once per package) the package's test binary with all harness
 // files injected through the overlay.
-func testBinary(repo, ovFile, pkg string) (string, string) {
+func testBinary(repo, ovFile, pkg string, race bool) (string, string) {
 	testBinMu.Lock()
 	defer testBinMu.Unlock()
-	if b, ok := testBins[pkg]; ok {
-		return b, testBinErr[pkg]
+	key := pkg
+	if race {
+		key += "#race"
+	}
+	if b, ok := testBins[key]; ok {
+		return b, testBinErr[key]
 	}
 	p := "."
 	if pkg != "" && pkg != "." {
 		p = "./" + pkg
 	}
-	bin := filepath.Join(filepath.Dir(ovFile), "test-"+sanitize(pkg)+".bin")
-	cmd := exec.Command("go", "test", "-c", "-overlay", ovFile, "-vet=off", "-o", bin, p)
+	bin := filepath.Join(filepath.Dir(ovFile), "test-"+sanitize(key)+".bin")
+	args := []string{"test", "-c", "-overlay", ovFile, "-vet=off", "-o", bin}
+	if race {
+		args = append(args, "-race")
+	}
+	cmd := exec.Command("go", append(args, p)...)
 	cmd.Dir = filepath.Join(repo, "ociregistry")
 	cmd.Env = append(os.Environ(), "GOWORK=off", "GOFLAGS=", "GOPROXY=off", "GOSUMDB=off", "GOTOOLCHAIN=local")
 	out, err := cmd.CombinedOutput()
 	if err != nil {
-		testBins[pkg] = ""
-		testBinErr[pkg] = "go test -c failed: " + tail(string(out), 10)
-		return "", testBinErr[pkg]
+		testBins[key] = ""
+		testBinErr[key] = "go test -c failed: " + tail(string(out), 10)
+		return "", testBinErr[key]
 	}
-	testBins[pkg] = bin
+	testBins[key] = bin
 	return bin, ""
 }
 
 const maxSamplesPerRun = 3
 
-func nativeReplay(repo, ovFile, pkg, harness, params, vector string) (string, []string) {
-	bin, berr := testBinary(repo, ovFile, pkg)
+func nativeReplay(repo, ovFile, pkg, harness, params, vector string, race bool, sampleRun bool) (string, []string) {
+	bin, berr := testBinary(repo, ovFile, pkg, race)
 	if bin == "" {
 		return "no-outcome: " + berr, nil
+	}
+	if race {
+		// a race needs the right overlap of the two goroutines: try repeatedly
+		last := ""
+		tries := 40
+		if sampleRun {
+			tries = 3
+		}
+		for i := 0; i < tries; i++ {
+			cmd := exec.Command(bin, "-test.run", "^TestVerifReplay$", "-test.count=1", "-test.timeout", "120s", "-test.v")
+			cmd.Dir = filepath.Join(repo, "ociregistry", pkg)
+			cmd.Env = append(os.Environ(), "VERIF_REPLAY="+vector, "VERIF_HARNESS="+harness, "VERIF_PARAMS="+params, "GORACE=halt_on_error=0")
+			out, _ := cmd.CombinedOutput()
+			if strings.Contains(string(out), "WARNING: DATA RACE") {
+				return "race", nil
+			}
+			for _, line := range strings.Split(string(out), "\n") {
+				if strings.HasPrefix(line, "VERIF-OUTCOME ") {
+					last = strings.TrimPrefix(line, "VERIF-OUTCOME ")
+				}
+			}
+			if last != "ok" && last != "" {
+				return last, nil
+			}
+		}
+		return last, nil
 	}
 	cmd := exec.Command(bin, "-test.run", "^TestVerifReplay$", "-test.count=1", "-test.timeout", "120s", "-test.v")
 	cmd.Dir = filepath.Join(repo, "ociregistry", pkg)
@@ -533,6 +590,8 @@ func reproduces(out string, v *violation) bool {
 		return out == "assert-failed "+v.Label
 	case "panic":
 		return strings.HasPrefix(out, "panic ")
+	case "race":
+		return out == "race"
 	case "nontermination":
 		return out == "timeout"
 	case "deadlock":
